@@ -35,6 +35,61 @@ type Solver struct {
 	Time    time.Duration
 	Log     io.Writer
 	timeout int // ms
+	dead    bool
+}
+
+// Dead reports whether the solver process stopped answering.
+func (s *Solver) Dead() bool { return s.dead }
+
+// Eval returns the model values of arbitrary terms (call right after a Sat Check, same scope).
+func (s *Solver) Eval(ts []*term.Term) ([]uint64, error) {
+	out := make([]uint64, len(ts))
+	for i, t := range ts {
+		if t.IsConst() {
+			out[i] = t.Val
+			continue
+		}
+		r := s.ref(t)
+		s.send(fmt.Sprintf("(get-value (%s))", r))
+		txt, err := s.readSexp()
+		if err != nil {
+			return nil, err
+		}
+		v, ok := parseValue(txt)
+		if !ok {
+			return nil, fmt.Errorf("cannot parse value: %s", txt)
+		}
+		out[i] = v
+	}
+	return out, nil
+}
+
+func (s *Solver) readSexp() (string, error) {
+	var sb strings.Builder
+	depth := 0
+	started := false
+	for {
+		line, err := s.readLine()
+		if err != nil {
+			s.dead = true
+			return "", err
+		}
+		if strings.HasPrefix(line, "(error") {
+			return "", fmt.Errorf("solver error: %s", line)
+		}
+		sb.WriteString(line + " ")
+		for _, c := range line {
+			if c == '(' {
+				depth++
+				started = true
+			} else if c == ')' {
+				depth--
+			}
+		}
+		if started && depth == 0 {
+			return sb.String(), nil
+		}
+	}
 }
 
 func New(bin string, args []string, timeoutMs int) (*Solver, error) {
@@ -167,6 +222,8 @@ func (s *Solver) Check() (Result, error) {
 	for {
 		line, err := s.readLine()
 		if err != nil {
+			s.dead = true
+			s.NUnk++
 			return Unknown, err
 		}
 		switch {
@@ -271,4 +328,85 @@ func parseValue(txt string) (uint64, bool) {
 		}
 	}
 	return 0, false
+}
+
+// Script renders a standalone SMT-LIB2 script asserting all of ts, ending in (check-sat).
+func Script(ts []*term.Term, header string) string {
+	var sb strings.Builder
+	sb.WriteString(header)
+	defined := map[int]bool{}
+	ufs := map[string]bool{}
+	var ref func(t *term.Term) string
+	ref = func(t *term.Term) string {
+		if t.Op == term.OpConst {
+			return t.SMT(nil)
+		}
+		name := fmt.Sprintf("t%d", t.ID)
+		if t.Op == term.OpVar {
+			name = "|" + t.Name + "|"
+		}
+		if defined[t.ID] {
+			return name
+		}
+		for _, a := range t.Args {
+			ref(a)
+		}
+		switch t.Op {
+		case term.OpVar:
+			fmt.Fprintf(&sb, "(declare-const %s %s)\n", name, t.Sort())
+		case term.OpUF:
+			if !ufs[t.Name] {
+				var as strings.Builder
+				for i, a := range t.Args {
+					if i > 0 {
+						as.WriteString(" ")
+					}
+					as.WriteString(a.Sort())
+				}
+				fmt.Fprintf(&sb, "(declare-fun |%s| (%s) %s)\n", t.Name, as.String(), t.Sort())
+				ufs[t.Name] = true
+			}
+			fmt.Fprintf(&sb, "(define-fun %s () %s %s)\n", name, t.Sort(), t.SMT(ref))
+		default:
+			fmt.Fprintf(&sb, "(define-fun %s () %s %s)\n", name, t.Sort(), t.SMT(ref))
+		}
+		defined[t.ID] = true
+		return name
+	}
+	for _, t := range ts {
+		r := ref(t)
+		fmt.Fprintf(&sb, "(assert %s)\n", r)
+	}
+	sb.WriteString("(check-sat)\n")
+	return sb.String()
+}
+
+// RunScript runs a one-shot solver on a script and returns sat/unsat/unknown (any error line = unknown).
+func RunScript(bin string, args []string, script string, timeout time.Duration) string {
+	cmd := exec.Command(bin, args...)
+	cmd.Stdin = strings.NewReader(script)
+	done := make(chan struct{})
+	var out []byte
+	go func() { out, _ = cmd.CombinedOutput(); close(done) }()
+	select {
+	case <-done:
+	case <-time.After(timeout):
+		if cmd.Process != nil {
+			cmd.Process.Kill()
+		}
+		<-done
+		return "unknown"
+	}
+	txt := string(out)
+	if strings.Contains(txt, "(error") {
+		return "unknown"
+	}
+	res := "unknown"
+	for _, l := range strings.Split(txt, "\n") {
+		l = strings.TrimSpace(l)
+		if l == "sat" || l == "unsat" {
+			res = l
+		}
+	}
+	return res
 }
